@@ -159,9 +159,23 @@ impl Model {
                     match inter {
                         Some(r) => ModelLayer { bbox: Some(Rectangle::new(Point::zero(), r.size)), bbox_exact: Rectangle::new(Point::zero(), r.size), shift: r.top_left, clip: None, kind: l.clone() },
                         None => {
-                            // undocumented origin: take it from Rectangle::intersection (see assumptions)
-                            let lib = a.intersection(&below_exact);
-                            ModelLayer { bbox: None, bbox_exact: Rectangle::new(Point::zero(), lib.size), shift: lib.top_left, clip: None, kind: l.clone() }
+                            // A zero-sized area whose top-left corner lies inside the target below is still "a
+                            // subregion of the parent": the documented origin (area.top_left) and size apply.
+                            // Only for an area that does not touch the target at all is the origin
+                            // undocumented; it is taken from Rectangle::intersection then (see assumptions).
+                            let inside = below.map_or(false, |b| {
+                                a.top_left.x >= b.top_left.x && a.top_left.y >= b.top_left.y && (a.top_left.x as i64) < b.top_left.x as i64 + b.size.width as i64 && (a.top_left.y as i64) < b.top_left.y as i64 + b.size.height as i64
+                            });
+                            if inside && a.is_zero_sized() {
+                                // (the part of a degenerate area that sticks out is cut like for any other area)
+                                let b = below.unwrap();
+                                let w = (a.size.width as i64).min(b.top_left.x as i64 + b.size.width as i64 - a.top_left.x as i64) as u32;
+                                let h = (a.size.height as i64).min(b.top_left.y as i64 + b.size.height as i64 - a.top_left.y as i64) as u32;
+                                ModelLayer { bbox: None, bbox_exact: Rectangle::new(Point::zero(), Size::new(w, h)), shift: a.top_left, clip: None, kind: l.clone() }
+                            } else {
+                                let lib = a.intersection(&below_exact);
+                                ModelLayer { bbox: None, bbox_exact: Rectangle::new(Point::zero(), lib.size), shift: lib.top_left, clip: None, kind: l.clone() }
+                            }
                         }
                     }
                 }
